@@ -738,6 +738,26 @@ class Interp:
                 raise EngineError("del target")
 
     def s_If(self, node, env):
+        # if-conversion: `if c: x = <constant or name>` on numbers becomes x = ite(c, v, x) instead of a fork
+        if (not node.orelse and len(node.body) == 1 and isinstance(node.body[0], ast.Assign) and len(node.body[0].targets) == 1
+                and isinstance(node.body[0].targets[0], ast.Name) and isinstance(node.body[0].value, (ast.Constant, ast.Name))):
+            cond = self.eval(node.test, env)
+            if isinstance(cond, SBool) and getattr(self.ctx, "if_conversion", False):
+                name = node.body[0].targets[0].id
+                try:
+                    old = env.lookup(name)
+                    new = self.eval(node.body[0].value, env)
+                except NameError:
+                    old = new = None
+                num = lambda v: isinstance(v, (SReal, SInt)) or (isinstance(v, (int, float)) and not isinstance(v, bool))
+                if num(old) and num(new):
+                    from .sym import Ite
+
+                    env.vars[name] = Ite(cond, new, old)
+                    return
+            if self.truth(cond):
+                self.exec_block(node.body, env)
+            return
         if self.truth(self.eval(node.test, env)):
             self.exec_block(node.body, env)
         else:
